@@ -2,7 +2,7 @@
 """Mutation self-test (development aid, DESIGN Appendix C): applies hand-written breaking edits to /repo
 one at a time, runs the named checks (quick) and reports which exit 1. Usage: mutants.py [id-prefix...]"""
 import subprocess, sys, json, os, time
-R='/repo'
+R=os.environ.get('MUT_REPO','/repo')
 M=[
  # id, file, old, new, checks
  ("C01.sendtoall-stops","media/consumptions.go","\t\tc.send(p, keyframe)\n\t\treturn true","\t\tc.send(p, keyframe)\n\t\treturn false",["C01"]),
@@ -89,19 +89,19 @@ for mid,f,old,new,checks in M:
     if src.count(old)<1:
         print(f"{mid}: OLD-STRING-NOT-FOUND"); res.append((mid,'n/a')); continue
     open(p,'w').write(src.replace(old,new,1))
-    b=subprocess.run('cd /repo && GOFLAGS=-mod=mod GOPROXY=off go build ./... 2>&1 | head -3',shell=True,capture_output=True,text=True).stdout
+    b=subprocess.run('cd '+R+' && GOFLAGS=-mod=mod GOPROXY=off go build ./... 2>&1 | head -3',shell=True,capture_output=True,text=True).stdout
     if b.strip():
         open(p,'w').write(src); print(f"{mid}: DOES-NOT-COMPILE {b.strip()[:120]}"); res.append((mid,'nocompile')); continue
     outs=[]
     for c in checks:
         t=time.time()
-        r=subprocess.run(['/verif/check',c,'quick','-no-evidence'],capture_output=True,text=True)
+        r=subprocess.run(['/verif/check',c,'quick','-no-evidence','-repo',R],capture_output=True,text=True)
         v=[l for l in r.stdout.splitlines() if l.startswith('VIOLATION')]
         outs.append(f"{c}:exit={r.returncode},{len(v)}viol,{time.time()-t:.0f}s")
     open(p,'w').write(src)
     caught=any('exit=1' in o for o in outs)
     print(f"{mid}: {'CAUGHT' if caught else 'MISSED'}  {' '.join(outs)}",flush=True)
     res.append((mid,'caught' if caught else 'missed'))
-st=subprocess.run(['git','-C','/repo','status','--porcelain'],capture_output=True,text=True).stdout
+st=subprocess.run(['git','-C',R,'status','--porcelain'],capture_output=True,text=True).stdout
 print("repo status after run:",repr(st))
 print("summary:",{k:sum(1 for _,r in res if r==k) for k in set(r for _,r in res)})
